@@ -48,6 +48,8 @@ def gen_design(r, features=()):
             m.ports.append(("p%d" % j, r.choice(["input", "output", "inout"]), r.choice([1, 1, 2, 4])))
         if "params" in features and r.random() < 0.4:
             m.params = {"INIT": r.choice(["4'h8", "16", "\"str\""])}
+            for extra in r.sample(["WIDTH", "DEPTH", "MODE"], r.choice([0, 0, 1, 2])):
+                m.params[extra] = r.choice(["8", "1'b0", "\"fast\""])
         if "undeclared" in features and r.random() < 0.4:
             m.declared = False
         mods.append(m)
@@ -107,6 +109,8 @@ def gen_design(r, features=()):
                 ins.conns = {pn: at for (pn, _, _), at in zip(ref.ports, plist)}
             if "params" in features and r.random() < 0.3:
                 ins.params = {"INIT": r.choice(["8'hFF", "3", "\"a b\""])}
+                for extra in r.sample(["IS_C_INVERTED", "WIDTH", "LOC"], r.choice([0, 1, 2, 3])):
+                    ins.params[extra] = r.choice(["1'b0", "12", "\"X1Y2\""])
             if "attrs" in features and r.random() < 0.3:
                 ins.attrs = {"DONT_TOUCH": "\"true\""} if r.random() < 0.5 else {"flag": None}
             m.insts.append(ins)
